@@ -22,7 +22,21 @@ man = {
     "notes": NOTES,
     "not_applicable": NOT_APPLICABLE,
 }
+# rules of other checks applied to a property as necessary conditions of it (verifstat/shared.py)
+import ast as _ast
+_src = open(os.path.join(os.path.dirname(os.path.dirname(os.path.abspath(__file__))), "verifstat", "shared.py")).read()
+_shared = {}
+for _node in _ast.walk(_ast.parse(_src)):
+    if isinstance(_node, _ast.Assign) and any(isinstance(t, _ast.Name) and t.id == "SHARED" for t in _node.targets):
+        for _k, _v in zip(_node.value.keys, _node.value.values):
+            _rows = []
+            for _row in _v.elts:
+                _mp = _row.elts[1]
+                _rows += [f"{_o.value} as {_n.value}" for _o, _n in zip(_mp.keys, _mp.values)]
+            _shared[_k.value] = _rows
 for c in CHECKS:
+    if _shared.get(c["id"]):
+        c = dict(c, note=c["note"] + " Rules of neighbouring checks applied here as necessary conditions of this property (DESIGN.md section 8): " + "; ".join(_shared[c["id"]]) + ".")
     man["checks"].append({
         "property_id": c["id"],
         "quick_cmd": f"cd /verif && {PY} -m verifstat check {c['id']} --tier quick",
